@@ -1,4 +1,6 @@
 import Yuiv.Proofs.C09Inv
+import Yuiv.Proofs.C09Rel
+import Mathlib.Algebra.Field.ZMod
 /-
 C09 — Smith normal form: `D = P·A·Q`, diagonal divisibility chain, true inverses.
 
@@ -123,6 +125,43 @@ theorem snfTransformOk_sound_fp (p : Nat) [NeZero p] {m n : Nat} (A D : Mat Nat 
     toM φ A = toM φ Pinv * toM φ D * toM φ Qinv :=
   snfTransformOk_sound (lawful_fp p) A D P Pinv Q Qinv h
 
+/-- over 𝔽_p (p prime): diagonal `1, …, 1, 0, …, 0` -/
+theorem isSnfShape_sound_fp (p : Nat) [Fact p.Prime] {m n : Nat} (D : Mat Nat m n)
+    (h : isSnfShape (fpOps p) D = true) :
+    (∀ (i : Fin m) (j : Fin n), i.1 ≠ j.1 → ((D.get i j : Nat) : ZMod p) = 0) ∧
+      ShapeSpec (fun x : ZMod p => x = 0 ∨ x = 1) ((diagL D).map (fun a : Nat => (a : ZMod p))) := by
+  have hp : p.Prime := Fact.out
+  haveI : NeZero p := ⟨hp.pos.ne'⟩
+  refine isSnfShape_sound (lawful_fp p) (fun x : ZMod p => x = 0 ∨ x = 1) ?_ ?_ D h
+  · intro a ha
+    show ((a : Nat) : ZMod p) = 0 ∨ ((a : Nat) : ZMod p) = 1
+    simp only [EOps.isNorm, ROps.isOne, fpOps, fpROps, beq_iff_eq] at ha
+    by_cases h0 : a % p = 0
+    · left; exact (ZMod.natCast_eq_zero_iff a p).2 (Nat.dvd_of_mod_eq_zero h0)
+    · right
+      rw [if_neg h0] at ha
+      have h1p : 1 % p = 1 := Nat.mod_eq_of_lt hp.one_lt
+      rw [h1p, h1p] at ha
+      unfold fpInv at ha
+      cases hf : (List.range p).find? (fun b => a % p * b % p == 1) with
+      | none => rw [hf] at ha; simp at ha
+      | some b =>
+        rw [hf] at ha
+        have hb := List.find?_some hf
+        simp only [Option.getD_some, beq_iff_eq] at ha hb
+        have e1 : ((a % p * b % p : Nat) : ZMod p) = ((1 : Nat) : ZMod p) := by rw [hb]
+        have e2 : ((b % p : Nat) : ZMod p) = ((1 : Nat) : ZMod p) := by rw [ha]
+        simp only [ZMod.natCast_mod, Nat.cast_mul, Nat.cast_one] at e1 e2
+        rw [e2, mul_one] at e1
+        exact e1
+  · intro a b hab
+    simp only [EOps.dvd, ROps.isZero, fpOps, fpROps, Bool.and_eq_true, Bool.not_eq_true', beq_eq_false_iff_ne,
+      Nat.zero_mod] at hab
+    have hne : ((a : Nat) : ZMod p) ≠ 0 := by
+      intro h0
+      exact hab.1 (Nat.mod_eq_zero_of_dvd ((ZMod.natCast_eq_zero_iff a p).1 h0))
+    exact (IsUnit.mk0 ((a : Nat) : ZMod p) hne).dvd
+
 /-! ### (T) the transform invariant
 
 `Inv φ A s` : `s.p · A · s.q = s.t ∧ s.p · s.pinv = 1 ∧ s.q · s.qinv = 1` (as Mathlib matrices).
@@ -172,6 +211,13 @@ theorem snf_transform_inv {e : EOps α} {φ : α → R} (L : LawfulE e φ) {m n 
     toM φ s.p * toM φ A * toM φ s.q = toM φ s.t ∧ toM φ s.p * toM φ s.pinv = 1 ∧
       toM φ s.q * toM φ s.qinv = 1 :=
   inv_snfCalc L pre hpre fuel s hs
+
+/-- the release build (no `debug_assert!`) returns exactly what the debug build returns, whenever the debug
+build returns; so `snf_transform_inv` also covers the release build on every input on which the debug build —
+the one the harness runs — does not trip an assertion -/
+theorem snf_release_eq_debug {e : EOps α} {m n : Nat} (A : Mat α m n) (pre : St α m n → Res (St α m n))
+    (fuel : Nat) (s : St α m n) (hs : snfCalc e true pre fuel A = .ok s) :
+    snfCalc e false pre fuel A = .ok s := snfCalc_rel pre fuel A s hs
 
 /-- the same for the reference SNF of the driver (no assumption at all) -/
 theorem ref_transform_inv {e : EOps α} {φ : α → R} (L : LawfulE e φ) {m n : Nat} (A : Mat α m n)
